@@ -683,6 +683,12 @@ class Species(AtomCollection):
         elif isinstance(value, val.PotentialEnergy):
             self.energies.append(value)
 
+        elif isinstance(value, val.Energy):
+            # Any other kind of energy: keep its units
+            self.energies.append(
+                val.PotentialEnergy(float(value), units=value.units)
+            )
+
         else:
             # Attempt to cast the value to Potential energy
             self.energies.append(val.PotentialEnergy(float(value)))
